@@ -499,3 +499,40 @@ def rule_ZQ1(ctx, files=None):
                              % (f.loc(i), ('%s == 0' % names[0]) if r[0] == 'z' else '%s == %s' % tuple(names), ', '.join(names)))
     res.analysed.update({'guarded_quotients': nq})
     return res, nq
+
+
+def rule_PRT1(ctx, files=None):
+    from .dispatch import _regions
+    res = RuleResult('PRT1', 'sibling switches partition alike: two switch statements of one class over the same set of three '
+                             'or more case labels give distinct arms to the same labels (labels that every sibling keeps apart '
+                             'are not merged into one fall-through arm in another)')
+    groups = {}
+    seen = set()
+    for f in sorted(ctx.lib_fns(), key=lambda x: (x.file, x.line)):
+        if not _in(f, files) or f.d.get('body', -1) < 0:
+            continue
+        for i, n in f.all_nodes():
+            if n['k'] != 'SwitchStmt' or f.loc(i) in seen:
+                continue
+            seen.add(f.loc(i))
+            parts = [frozenset(l for l in r[0] if isinstance(l, int)) for r in _regions(f, i)]
+            parts = frozenset(p for p in parts if p)
+            labels = frozenset(l for p in parts for l in p)
+            if len(labels) >= 3:
+                groups.setdefault((f.cls or f.file, labels), []).append((f, i, parts))
+    npair = 0
+    for (cls, labels), sws in sorted(groups.items(), key=lambda kv: (str(kv[0][0]), sorted(kv[0][1]))):
+        for a in range(len(sws)):
+            for b in range(a + 1, len(sws)):
+                npair += 1
+                (fa, ia, pa), (fb, ib, pb) = sws[a], sws[b]
+                ok = pa == pb
+                res.ob(ok, {'class': cls, 'switches': [fa.loc(ia), fb.loc(ib)], 'labels': sorted(labels)})
+                if not ok:
+                    coarse, fine = ((fa, ia, pa), (fb, ib, pb)) if len(pa) < len(pb) else ((fb, ib, pb), (fa, ia, pa))
+                    merged = [sorted(p) for p in coarse[2] if p not in fine[2]]
+                    res.fail(coarse[0].q, 'case %s' % merged, coarse[0].loc(coarse[1]),
+                             'the switch at %s gives the labels %s one arm, the sibling switch at %s (%s) keeps them apart'
+                             % (coarse[0].loc(coarse[1]), merged, fine[0].loc(fine[1]), fine[0].q))
+    res.analysed.update({'switch_pairs': npair})
+    return res, npair
